@@ -8,6 +8,8 @@ pub mod cst;
 mod error;
 mod limit;
 mod parser;
+#[cfg(apollo_rs_verif)]
+pub mod verif_trace;
 
 pub use crate::error::Error;
 pub use crate::lexer::Lexer;
